@@ -227,18 +227,7 @@ Section GC.
   Notation step := (step C body rbody rows_of cacheable rcache).
   Notation cached := (cached C).
 
-  (* ---------- histories in which the collector may free any live canvas ---------- *)
-  Definition alive (st : state) (c : cid) : bool := existsb (fun cv => c_id cv =? c) (heap st).
-  Definition step_gc (n : nat) (st : state) (o : op) : state * outcome C :=
-    match o with
-    | Collect c =>
-      if alive st c
-      then (State (cleanup (cc st) c) (remove_canvas C (heap st) c) (next st) (ver st), ODone C)
-      else (st, OSkipped C)
-    | _ => step n st o
-    end.
-  Definition run_gc (n : nat) (st : state) (ops : list op) : state :=
-    fold_left (fun s o => fst (step_gc n s o)) ops st.
+  Notation run := (run C body rbody rows_of cacheable rcache).
 
   (* ---------- the invariant ---------- *)
   Definition good (vr : list (Z * Z)) (cv : canvas) : Prop :=
@@ -599,24 +588,24 @@ Section GC.
     - intros cv [[] _].
   Qed.
 
-  Lemma step_gc_inv n st G o : Inv2 st G ->
-    exists G', Inv2 (fst (step_gc n st o)) G' /\ (forall x, In x G -> In x G').
+  Lemma step_inv2 n st G o : Inv2 st G ->
+    exists G', Inv2 (fst (step n st o)) G' /\ (forall x, In x G -> In x G').
   Proof.
-    intros I. destruct o as [w k|w k|w v|c|]; cbn [step_gc Cache.step].
+    intros I. destruct o as [w k|w k|w v|c|]; cbn [Cache.step].
     - destruct (crender n st w k) as [[cv st']|] eqn:E; cbn [fst]; [|exists G; auto].
       destruct (crender_ok2 n _ _ _ _ _ _ I E) as [G' [I' [SG _]]]. exists G'. auto.
     - exists G. auto.
     - destruct (invalidate_total (S (length (deps (cc st)))) (cc st) w ltac:(lia)) as [c' [E _]].
       rewrite E. cbn [fst]. exists G. split; [apply mutate_inv2; assumption|auto].
-    - destruct (alive st c); cbn [fst]; exists G; split; auto. apply collect_inv2. exact I.
+    - destruct (alive C st c); cbn [fst]; exists G; split; auto. apply collect_inv2. exact I.
     - cbn [fst]. exists G. split; [apply Inv2_cleared; exact I|auto].
   Qed.
 
-  Lemma run_gc_inv n ops : forall st G, Inv2 st G ->
-    exists G', Inv2 (run_gc n st ops) G' /\ (forall x, In x G -> In x G').
+  Lemma run_inv2 n ops : forall st G, Inv2 st G ->
+    exists G', Inv2 (run n st ops) G' /\ (forall x, In x G -> In x G').
   Proof.
-    induction ops as [|o ops IH]; intros st G I; cbn [run_gc fold_left]; [exists G; auto|].
-    destruct (step_gc_inv n st G o I) as [G1 [I1 S1]].
+    induction ops as [|o ops IH]; intros st G I; cbn [Cache.run fold_left]; [exists G; auto|].
+    destruct (step_inv2 n st G o I) as [G1 [I1 S1]].
     destruct (IH _ _ I1) as [G2 [I2 S2]]. exists G2. split; [exact I2|auto].
   Qed.
 
@@ -649,55 +638,55 @@ Section GC.
   Qed.
 
   Lemma gc_fresh_invariant n ops :
-    let st := run_gc n init ops in
+    let st := run n init ops in
     forall cv, cached st cv -> forall m x, fresh (ver st) m (c_w cv) (c_k cv) = Some x -> c_content cv = x.
   Proof.
-    cbn zeta. destruct (run_gc_inv n ops init [] Inv2_init) as [G [I _]].
+    cbn zeta. destruct (run_inv2 n ops init [] Inv2_init) as [G [I _]].
     intros cv Cc. exact (Lk_good _ _ _ _ (i_link _ _ I cv Cc)).
   Qed.
 
   (* DepsComplete without liveness: the recorded render trace of a cached canvas is linked all the way down *)
   Lemma gc_deps_complete n ops :
-    let st := run_gc n init ops in
+    let st := run n init ops in
     exists G, (forall cv, In cv (heap st) -> In cv G) /\ forall cv, cached st cv -> Lk (cc st) (ver st) G cv.
   Proof.
-    cbn zeta. destruct (run_gc_inv n ops init [] Inv2_init) as [G [I _]].
+    cbn zeta. destruct (run_inv2 n ops init [] Inv2_init) as [G [I _]].
     exists G. split; [apply (i_sub _ _ I)|apply (i_link _ _ I)].
   Qed.
 
   Lemma gc_render_equals_fresh n ops m m' w k cv st1 x :
-    let st := run_gc n init ops in
+    let st := run n init ops in
     crender m st w k = Some (cv, st1) -> fresh (ver st) m' w k = Some x -> c_content cv = x.
   Proof.
-    cbn zeta. destruct (run_gc_inv n ops init [] Inv2_init) as [G [I _]]. apply (cached_render_is_fresh2 _ _ _ G). exact I.
+    cbn zeta. destruct (run_inv2 n ops init [] Inv2_init) as [G [I _]]. apply (cached_render_is_fresh2 _ _ _ G). exact I.
   Qed.
 
   Lemma gc_cache_invisible n m1 m2 ops w k cv st1 cv' st2 :
-    let st := run_gc n init ops in
+    let st := run n init ops in
     crender m1 st w k = Some (cv, st1) ->
     crender m2 (State empty_cache (heap st) (next st) (ver st)) w k = Some (cv', st2) ->
     c_content cv = c_content cv'.
   Proof.
     cbn zeta. intros E1 E2.
-    destruct (run_gc_inv n ops init [] Inv2_init) as [G [I _]].
-    destruct (fresh_total_lemma C body rank body_ranked (ver (run_gc n init ops)) (S (rank w)) w k ltac:(lia)) as [x F].
+    destruct (run_inv2 n ops init [] Inv2_init) as [G [I _]].
+    destruct (fresh_total_lemma C body rank body_ranked (ver (run n init ops)) (S (rank w)) w k ltac:(lia)) as [x F].
     rewrite (cached_render_is_fresh2 _ _ _ _ _ _ _ _ _ I E1 F).
     symmetry. apply (cached_render_is_fresh2 _ (S (rank w)) _ _ _ _ _ _ _ (Inv2_cleared _ _ I) E2). exact F.
   Qed.
 
   Lemma gc_render_total n ops m w k :
-    (rank w < m)%nat -> exists cv st', crender m (run_gc n init ops) w k = Some (cv, st').
+    (rank w < m)%nat -> exists cv st', crender m (run n init ops) w k = Some (cv, st').
   Proof.
-    intros L. destruct (run_gc_inv n ops init [] Inv2_init) as [G [I _]]. apply (crender_total2 m _ G); assumption.
+    intros L. destruct (run_inv2 n ops init [] Inv2_init) as [G [I _]]. apply (crender_total2 m _ G); assumption.
   Qed.
 
   Lemma gc_change_visible n ops d v :
-    let st := run_gc n init (ops ++ [Mutate d v]) in
+    let st := run n init (ops ++ [Mutate d v]) in
     version (ver st) d = v /\
     forall m m' w k cv st1 x, crender m st w k = Some (cv, st1) -> fresh (ver st) m' w k = Some x -> c_content cv = x.
   Proof.
     cbn zeta. split.
-    - unfold run_gc. rewrite fold_left_app. cbn [fold_left step_gc Cache.step].
+    - unfold Cache.run. rewrite fold_left_app. cbn [fold_left Cache.step].
       destruct (invalidate _ _ _); cbn [fst ver]; rewrite version_aset, Z.eqb_refl; reflexivity.
     - intros m m' w k cv st1 x. apply gc_render_equals_fresh.
   Qed.
@@ -729,20 +718,20 @@ Section GC.
   Qed.
 
   Lemma gc_rows_ok n ops m m' w k r r' :
-    let st := run_gc n init ops in
+    let st := run n init ops in
     crows m st w k = Some r -> frows (ver st) m' w k = Some r' -> r = r'.
   Proof.
-    cbn zeta. destruct (run_gc_inv n ops init [] Inv2_init) as [G [I _]]. apply (rows_lemma2 _ G). exact I.
+    cbn zeta. destruct (run_inv2 n ops init [] Inv2_init) as [G [I _]]. apply (rows_lemma2 _ G). exact I.
   Qed.
 
   (* canvases are never written to *)
   Lemma gc_never_mutated n ops1 ops2 cv cv' :
-    let st := run_gc n init ops1 in
-    In cv (heap st) -> In cv' (heap (run_gc n st ops2)) -> c_id cv' = c_id cv -> cv' = cv.
+    let st := run n init ops1 in
+    In cv (heap st) -> In cv' (heap (run n st ops2)) -> c_id cv' = c_id cv -> cv' = cv.
   Proof.
     cbn zeta. intros H1 H2 E.
-    destruct (run_gc_inv n ops1 init [] Inv2_init) as [G [I _]].
-    destruct (run_gc_inv n ops2 _ G I) as [G' [I' SG]].
+    destruct (run_inv2 n ops1 init [] Inv2_init) as [G [I _]].
+    destruct (run_inv2 n ops2 _ G I) as [G' [I' SG]].
     apply (heap_unique C G'); [apply (i_gnodup _ _ I')|apply (i_sub _ _ I'); exact H2|apply SG; apply (i_sub _ _ I); exact H1|exact E].
   Qed.
 
